@@ -955,3 +955,163 @@ func (d *snEnv) runCase(c snCase, rep, idx int) error {
 }
 
 var _ cryptotypes.PubKey
+
+// ---------------------------------------------------------------------------------------
+// Ethereum batches: one envelope, 2-3 messages, exactly one of them not authorised
+
+// runBatchCase executes a case {route, "batch", "<offence>@<pos>/<size>:<mix>"}: route is the
+// type of the offending message, mix "same" = every message signed by s1, "diff" = the offending
+// one by v and the rest by s1.  The batch is internally consistent (nonces continue as if the
+// offending message counted), so that only the one flaw stands in the way.  Afterwards the
+// repaired batch (the offending message replaced by a valid one) is delivered: non-vacuity.
+func (d *snEnv) runBatchCase(c snCase, rep, idx int) error {
+	var off, mix string
+	var pos, size int
+	{
+		var rest string
+		at := -1
+		for i := range c.Mut {
+			if c.Mut[i] == '@' {
+				at = i
+			}
+		}
+		if at < 0 {
+			return fmt.Errorf("bad batch case %q", c.Mut)
+		}
+		off, rest = c.Mut[:at], c.Mut[at+1:]
+		if _, err := fmt.Sscanf(rest, "%d/%d:%s", &pos, &size, &mix); err != nil {
+			return fmt.Errorf("bad batch case %q: %v", c.Mut, err)
+		}
+	}
+	offender, other := "s1", "v"
+	if mix == "diff" {
+		offender, other = "v", "s1"
+	}
+	senderAt := func(i int) string {
+		if mix == "diff" && i != pos {
+			return "s1"
+		}
+		return offender
+	}
+	rcpt := d.key("r")
+	chain := d.n.App.EvmKeeper.ChainID()
+	amountAt := func(i int) *big.Int { return big.NewInt(int64(1000*(i+1)) + d.rnd.Int63n(900)) }
+	typeAt := func(i int) string {
+		if i == pos || (idx+i)%2 == 0 {
+			return c.Route
+		}
+		return "eth-dynamicfee"
+	}
+	none := snCase{Route: c.Route, Field: c.Field, Mut: c.Mut}
+
+	// "replay": the very message that is executed now, alone, comes back inside the batch
+	var executed *evmtypes.MsgEthereumTx
+	if off == "replay" {
+		k := d.key(offender)
+		amt := amountAt(0)
+		m, err := BuildEthMsg(k, d.ethOpts(c.Route, d.seqOf(offender), rcpt, amt, 21000, nil, chain))
+		if err != nil {
+			return err
+		}
+		executed = snCloneEth(m)
+		bz, err := snDefaultEnvelope([]*evmtypes.MsgEthereumTx{m}).Bytes()
+		if err != nil {
+			return err
+		}
+		wt := &snTxRec{ID: fmt.Sprintf("b%d:%d:warm", rep, idx), Signer: offender, Rcpt: "r", Amount: amt.String(),
+			Nonce: d.seqOf(offender), NM: 1, Route: c.Route, Q: "good"}
+		if d.submit("deliver", "orig", wt, none, bz) != 0 {
+			return fmt.Errorf("warm-up transaction rejected")
+		}
+		// committed, so that the CheckTx state has seen it too
+		d.commit()
+	}
+
+	amounts := make([]*big.Int, size+1)
+	for i := 1; i <= size; i++ {
+		amounts[i] = amountAt(i)
+	}
+	build := func(repaired bool) ([]byte, []snPart, error) {
+		next := map[string]uint64{"s1": d.seqOf("s1"), "v": d.seqOf("v")}
+		var msgs []*evmtypes.MsgEthereumTx
+		var parts []snPart
+		fromOverride := -1
+		for i := 1; i <= size; i++ {
+			who := senderAt(i)
+			k := d.key(who)
+			o := d.ethOpts(typeAt(i), next[who], rcpt, amounts[i], 21000, nil, chain)
+			var m *evmtypes.MsgEthereumTx
+			var err error
+			if repaired || i != pos {
+				m, err = BuildEthMsg(k, o)
+				next[who]++
+			} else {
+				switch off {
+				case "unprotected":
+					m, err = snEthUnprotected(k, o)
+					next[who]++
+				case "foreign":
+					o.ChainID = big.NewInt(snForeignEth[(idx+rep)%len(snForeignEth)])
+					m, err = BuildEthMsg(k, o)
+					next[who]++
+				case "badsig":
+					if m, err = BuildEthMsg(k, o); err == nil {
+						err = snEthMutate(d, m, typeAt(i), []string{"r", "s"}[idx%2], "flip")
+					}
+					next[who]++
+				case "from-other":
+					m, err = BuildEthMsg(k, o)
+					fromOverride = i - 1
+					next[who]++
+				case "gap":
+					o.Nonce = next[who] + 1
+					m, err = BuildEthMsg(k, o)
+					next[who] += 2
+				case "stale":
+					if next[who] == 0 {
+						return nil, nil, fmt.Errorf("no stale nonce available")
+					}
+					o.Nonce = next[who] - 1
+					m, err = BuildEthMsg(k, o)
+				case "replay":
+					m = snCloneEth(executed)
+					o.Nonce = d.seqOf(who) - 1
+				default:
+					err = fmt.Errorf("unknown offence %q", off)
+				}
+			}
+			if err != nil {
+				return nil, nil, err
+			}
+			msgs = append(msgs, m)
+			parts = append(parts, snPart{Signer: who, Nonce: o.Nonce, Amount: amounts[i].String()})
+		}
+		e := snDefaultEnvelope(msgs)
+		if fromOverride >= 0 {
+			msgs[fromOverride].From = ethAddr(d.key(other)).Hex()
+		}
+		bz, err := e.Bytes()
+		return bz, parts, err
+	}
+	mutated, mparts, err := build(false)
+	if err != nil {
+		return err
+	}
+	repaired, rparts, err := build(true)
+	if err != nil {
+		return err
+	}
+	if bytes.Equal(mutated, repaired) {
+		return fmt.Errorf("the batch carries no flaw")
+	}
+	id := fmt.Sprintf("b%d:%d:%s", rep, idx, c.Route)
+	mt := &snTxRec{ID: id, Signer: mparts[0].Signer, Rcpt: "r", Amount: mparts[0].Amount, Nonce: mparts[0].Nonce, NM: size,
+		Route: c.Route, Q: "mut", Qpos: pos, Parts: mparts}
+	rt := &snTxRec{ID: id + ":repaired", Signer: rparts[0].Signer, Rcpt: "r", Amount: rparts[0].Amount, Nonce: rparts[0].Nonce, NM: size,
+		Route: c.Route, Q: "good", Parts: rparts}
+	d.submit("check", "mut", mt, c, mutated)
+	d.submit("deliver", "mut", mt, c, mutated)
+	d.submit("deliver", "orig", rt, c, repaired)
+	d.commit()
+	return nil
+}
